@@ -481,6 +481,9 @@ def deletion_case(ctx, objs, k):
     stray = sorted(set(os.listdir(sb)) - before - {"notify.fifo", "resume.fifo"})
     s.resume(timeout=1 if ended_while_held else 30)
     res = s.finish(60)
+    for f in ("notify.fifo", "resume.fifo"):
+        if os.path.exists(os.path.join(sb, f)):
+            os.unlink(os.path.join(sb, f))
     ctx.note(f"deletion-case:{kind}:{threads or 'default'}:{fork or 'fork'}")
     if ended_while_held and stray:
         ctx.violation(f"link-returns-before-old-output-is-deleted:{fork or 'fork'}",
